@@ -268,7 +268,7 @@ func c16Panics(c *Ctx, kc *kindCtx) {
 				okD := c16DeadPanic(b)
 				c.check(okD, "panic-inventory", name+"#dead", pn.Pos(), "dead: reached only if neither of two conditions holds, after an early return when neither holds", "a panic marked unreachable is not provably dead")
 			default:
-				if c16DeadPanic(b) {
+				if c16DeadByKinds(b) {
 					c.ok("panic-inventory", name+"#dead", pn.Pos(), "dead: no reflect kind satisfies the conditions under which the panic is reached")
 					break
 				}
@@ -522,8 +522,16 @@ func c16TagInvariant(c *Ctx, f *ssa.Function, pn *ssa.Panic) {
 
 // c16DeadPanic: `if !a && !b {return}; ...; if a {..} else if b {..} else {panic}`.
 func c16DeadPanic(b *ssa.BasicBlock) bool {
-	// no reflect kind reaches the block: the default arm of a kind switch nested in an arm of a switch over the kind
-	// of the same value (a helper with a "cannot happen" arm folded into its only kind-restricted call site)
+	if c16DeadByKinds(b) {
+		return true
+	}
+	return c16DeadByReturn(b)
+}
+
+// c16DeadByKinds: no reflect kind reaches the block: the default arm of a kind switch nested in an arm of a switch
+// over the kind of the same value (a helper with a "cannot happen" arm folded into its only kind-restricted call
+// site).
+func c16DeadByKinds(b *ssa.BasicBlock) bool {
 	{
 		pb := &predBuilder{}
 		g := pb.pathCond(b.Parent().Blocks[0], b)
@@ -539,6 +547,10 @@ func c16DeadPanic(b *ssa.BasicBlock) bool {
 			}
 		}
 	}
+	return false
+}
+
+func c16DeadByReturn(b *ssa.BasicBlock) bool {
 	// the panic block is reached with two conditions false; an earlier block returns when both are false
 	var falseConds []ssa.Value
 	for _, ec := range condsDominating(b) {
